@@ -76,6 +76,17 @@ Theorem C11_constructors : forall (T : Type),
                        | _ => ~ (r * c = nlen vs /\ 1 <= nlen vs /\ r * c <= usize_max) end).
 Proof. exact @constructors_valid. Qed.
 
+(* the generating constructors: from_fn builds the table of its function, empty the constant
+   table; a zero length (or an element count beyond usize) panics *)
+Theorem C11_generated_constructors : forall (T : Type),
+  (forall r c (f : N -> N -> T), match from_fn (r, c) f with
+                 | Ok s => 1 <= r /\ 1 <= c /\ Inv s /\ abs s = table r c f
+                 | _ => r = 0 \/ c = 0 \/ usize_max < r * c end) /\
+  (forall (v : T) r c, match empty_ctor v (r, c) with
+                 | Ok s => 1 <= r /\ 1 <= c /\ Inv s /\ abs s = repeat (repeat v (N.to_nat c)) (N.to_nat r)
+                 | _ => r = 0 \/ c = 0 end).
+Proof. exact @generated_constructors. Qed.
+
 (* non-vacuity: a concrete 2 x 3 start and a history mixing returning and panicking calls
    satisfies every hypothesis above *)
 Example C11_nonvacuous :
@@ -100,3 +111,4 @@ Print Assumptions C11_step.
 Print Assumptions C11_observations.
 Print Assumptions C11_preconditions_panic.
 Print Assumptions C11_constructors.
+Print Assumptions C11_generated_constructors.
